@@ -1,23 +1,26 @@
 """C18 -- re-processing, incremental loading and failed loads do not skew results.
 
-Three parts (DESIGN.md section 5, C18):
-
-  metamorphic (implementation only, this is where regressions are caught)
-      random op histories (L<i> = Modules.Parse of text i, P = Modules.Process + full dump) of length <= 10 over pools of
-      good texts (random resolver schemas, typedef chains, identities, imports whose target arrives later, newer revisions
-      arriving later, submodules arriving later, equal namespaces) and bad texts (syntax error, rejected statement after
-      typedefs were registered, top-level non-module with typedefs, duplicate module, good module followed by a bad
-      statement = the known shape).  EVERY P's dump of the history is compared (complete JSON: errors as list, error
-      positions, trees, types, identities with the order of their values, tree invariant clauses) with a FRESH batch run
-      (L..,P) on exactly the texts the history had accepted up to that P.  Any difference is a VIOLATION unless it is
-      explained exactly by the listed shape load.partial-text (the batch that additionally loads the accepted prefix of
-      every partially failed text reproduces the history's dump).
-  queries twice   option q / op D of the c18hist command: dumping (ToEntry, Namespace, InstantiatingModule, ReadOnly,
-      DefaultValues, Find) twice after one Process gives the same dump.
-  correspondence  the extracted machine of coq/Model/History.v is driven with the same op sequences (texts abstracted to
-      items in Python) and must agree with the implementation (command c18hist, harness/go/c18.go) on the verdict of every
-      load, on the keys of ms.Modules / ms.SubModules after every op (which accepted item each key denotes), on the
-      import/include bindings after every Process and on every FindModuleByNamespace answer.
+  metamorphic (implementation only; this is where regressions are caught)
+      op histories (L<i> = Modules.Parse of text i, P = Modules.Process + full dump) of length <= 10 over pools of good
+      texts (random resolver schemas, typedef chains through imports, identities and identityrefs, imports whose target
+      arrives later, newer revisions arriving later, submodules arriving later and superseded, equal namespaces) and bad
+      texts (syntax error; rejected statement after typedefs were registered; top-level non-module with typedefs;
+      duplicate module; bad statement before / after a good module in one text; a module twice in one text), with
+      interleaved and repeated P.  EVERY P's dump of the history (errors as list, error positions, trees with types,
+      namespaces, instantiating modules, identities with the order of their values, import/include bindings, tree
+      invariant clauses; with option f the Find checks, with option q a Print of every tree after the dump) is compared
+      with a FRESH batch run (L..,P) on exactly the texts the history had accepted up to that P.  A difference that is
+      stable under re-running both sides is a VIOLATION (replay = history, batch, both dumps).  A fixed corpus of
+      scripted histories (one per defect this check has found: D43, D55, D56, D57, D62, and the earlier D40-D42) runs
+      first, plain and with every kind of bad text interleaved.
+  correspondence
+      the extracted machine of coq/Model/History.v (run with History.now) is driven with the same histories, texts
+      abstracted to items here, plus FindModuleByNamespace lookups; it must agree with the implementation (command
+      c18hist, harness/go/c18.go) on the verdict of every load, on the keys of ms.Modules / ms.SubModules and the item
+      each denotes after every load, on the import/include bindings after every Process and on every namespace answer.
+  oracle
+      the extracted specification (coq/Spec/C18.v: spec_load, spec_ns) evaluated next to it: the implementation's
+      verdicts, its set of loaded items and its namespace answers must be the specification's.
 """
 import json
 import os
@@ -28,9 +31,6 @@ import tempfile
 
 import lib
 from props import schema_gen as sg
-
-KNOWN_SIG = "load.partial-text"
-
 
 def hx(s):
     b = s.encode() if isinstance(s, str) else s
@@ -161,8 +161,10 @@ def fam_revisions():
 def fam_submodules():
     """submodules that arrive later, in two revisions, nested includes, a user of their definitions"""
     sm = module("sm", includes=[("ss", None)], tds=["mt"], body="  typedef mt { type st; }\n  leaf m { type mt; }\n  uses sg;\n")
-    s1 = module("ss", belongs="sm", prefix="sm", rev=D1, includes=[("s2", None)], tds=["st"], body=
-                "  typedef st { type string; }\n  grouping sg { leaf from-old { type st; } }\n  identity old-id;\n  leaf in-ss { type s2t; }\n")
+    s1 = module("ss", belongs="sm", prefix="sm", rev=D1, includes=[("s2", None)], imports=[("gm", "gm", None)], tds=["st"], body=
+                "  typedef st { type string; }\n  grouping sg { leaf from-old { type st; } }\n  identity old-id;\n  leaf in-ss { type s2t; }\n"
+                "  container viaimport { uses gm:gg; }\n")
+    gm = module("gm", tds=["gt"], body="  typedef gt { type int64; }\n  grouping gg { leaf g1 { type gt; } }\n")
     s1b = module("ss", belongs="sm", prefix="sm", rev=D2, tds=["st"], body=
                  "  typedef st { type int8; }\n  grouping sg { leaf from-new { type st; } }\n  identity new-id;\n")
     s2 = module("s2", belongs="sm", prefix="sm", tds=["s2t"], body="  typedef s2t { type uint16; }\n  identity s2-id;\n  leaf in-s2 { type s2t; }\n")
@@ -170,7 +172,19 @@ def fam_submodules():
                 "  identity d-old { base m:old-id; }\n  identity d-s2 { base m:s2-id; }\n  leaf x { type m:st; }\n")
     sv = module("sv", imports=[("sm", "m", None)], body="  identity d-new { base m:new-id; }\n  leaf y { type m:mt; }\n")
     lone = module("s9", belongs="nobody", prefix="nb", tds=["lt"], body="  typedef lt { type string; }\n  leaf z { type lt; }\n")
-    return [sm, s1, s1b, s2, su, sv, lone]
+    return [sm, s1, s1b, s2, su, sv, lone, gm]
+
+
+def fam_chains():
+    """an import whose newest revision needs a module that is missing (and may arrive later)"""
+    ca = module("ca", imports=[("cc", "c", None)], tds=["ta"], body=
+                "  typedef ta { type c:t; }\n  identity ai { base c:ci-one; }\n  leaf x { type ta; }\n  uses c:g;\n")
+    c1 = module("cc", rev=D1, tds=["t"], body="  typedef t { type string; }\n  identity ci-one;\n  grouping g { leaf old { type t; } }\n")
+    c2 = module("cc", rev=D2, imports=[("dd", "d", None)], tds=["t"], body=
+                "  typedef t { type d:dt; }\n  identity ci-two;\n  grouping g { leaf new { type t; } }\n")
+    dd = module("dd", tds=["dt"], body="  typedef dt { type int8; }\n")
+    cb = module("cb", imports=[("ca", "a", None), ("nowhere", "n", None)], body="  leaf y { type a:ta; }\n")
+    return [ca, c1, c2, dd, cb]
 
 
 def fam_namespaces():
@@ -186,41 +200,45 @@ def fam_random(rnd):
 
 
 FAMILIES = dict(typedefs=fam_typedefs, identities=fam_identities, revisions=fam_revisions, submodules=fam_submodules,
-                namespaces=fam_namespaces)
+                namespaces=fam_namespaces, chains=fam_chains)
+
+
+def make_pool(goods, rnd):
+    """texts for one history: one text per good item (g<i>.yang, index = position in [goods]) followed by bad texts.
+    With rnd=None every kind of bad text is present, in a fixed order (the corpus)."""
+    texts = [text_of("g%d.yang" % i, [it]) for i, it in enumerate(goods)]
+    bads = bad_items("q")
+    pick = (lambda l: l[0]) if rnd is None else rnd.choice
+    extra = []
+    which = range(len(bads)) if rnd is None else rnd.sample(range(len(bads)), rnd.randint(1, 3))
+    for j in which:
+        extra.append(text_of("b%d.yang" % j, [bads[j]]))           # whole-text failures
+    g = pick(goods)
+    if rnd is None:
+        extra.append(text_of("syn.yang", [], syntax=True, src=g["src"] + "typedef leak7 { type nosuchtype; }\n}\n"))
+    else:
+        extra.append(syntax_bad("syn.yang", g["src"] + "typedef leak7 { type nosuchtype; }\n", rnd))
+    extra.append(text_of("bg.yang", [pick(bads), pick(goods)]))     # bad statement first: nothing is added
+    if len(goods) >= 2 and (rnd is None or rnd.random() < 0.5):
+        a, b = (goods[0], goods[1]) if rnd is None else rnd.sample(goods, 2)
+        extra.append(text_of("gg.yang", [a, b]))                    # two good statements in one text
+    if rnd is None or rnd.random() < 0.6:
+        extra.append(text_of("part.yang", [pick(goods), pick(bads)]))   # D43: good module, then a rejected statement
+    if rnd is None or rnd.random() < 0.25:
+        g2 = pick(goods)
+        extra.append(text_of("twice.yang", [g2, dict(g2)]))         # D43: the second copy is the duplicate
+    if rnd is not None:
+        rnd.shuffle(extra)
+    return texts + extra
 
 
 def universe(rnd, which=None):
-    """a pool of texts (good ones first) for one history; returns (family names, texts)"""
+    """a pool of texts for one history; returns (family names, texts)"""
     names = [which] if which else rnd.sample(sorted(FAMILIES) + ["random", "random"], rnd.choice([1, 1, 2]))
     goods = []
     for n in names:
         goods += fam_random(rnd) if n == "random" else FAMILIES[n]()
-    # item names must be unique per (kind, name, revision) among the good pool for the pools to make sense; families are disjoint
-    texts = []
-    for i, it in enumerate(goods):
-        texts.append(text_of("g%d.yang" % i, [it]))
-    bads = bad_items("q")
-    k = len(texts)
-    extra = []
-    # whole-text failures
-    for j in rnd.sample(range(len(bads)), rnd.randint(1, 3)):
-        extra.append(text_of("b%d.yang" % j, [bads[j]]))
-    g = rnd.choice(goods)
-    extra.append(syntax_bad("syn.yang", g["src"] + "typedef leak7 { type nosuchtype; }\n", rnd))
-    # bad item first, good item second: nothing is added
-    extra.append(text_of("bg.yang", [rnd.choice(bads), rnd.choice(goods)]))
-    # two good items in one text
-    if len(goods) >= 2 and rnd.random() < 0.5:
-        a, b = rnd.sample(goods, 2)
-        extra.append(text_of("gg.yang", [a, b]))
-    # the listed shape: a good module followed by a rejected statement / by a copy of itself
-    if rnd.random() < 0.6:
-        extra.append(text_of("part.yang", [rnd.choice(goods), rnd.choice(bads)]))
-    if rnd.random() < 0.25:
-        g2 = rnd.choice(goods)
-        extra.append(text_of("twice.yang", [g2, dict(g2)]))
-    rnd.shuffle(extra)
-    return names, texts + extra
+    return names, make_pool(goods, rnd)
 
 
 def gen_ops(rnd, texts, maxlen=10):
@@ -239,6 +257,43 @@ def gen_ops(rnd, texts, maxlen=10):
     return ops
 
 
+# scripted histories: family -> op lists over the indices of the family's good items
+CORPUS = dict(
+    namespaces=["L0,P,L1,P,P", "L0,L2,P,L1,P", "L1,P,L0,P"],                               # D55 byNS
+    submodules=["L0,L7,L1,L3,P,L2,L4,P", "L0,L7,L1,L3,P,L2,P,P", "L0,P,L1,P,L3,P,L7,P",     # D57, D62, late submodules
+                "L4,L5,P,L0,L2,P,L1,L3,L7,P", "L6,P,L0,L2,P"],
+    typedefs=["L0,L2,L3,P,L1,P", "L4,P,L0,P,L1,P", "L3,P,L2,P,L0,P,P"],                    # D56 re-binding, late targets
+    identities=["L2,P,L0,P,L1,P", "L3,L1,P,L0,P,P", "L0,L1,L2,L3,P,P"],                    # D56 memoised errors, D42
+    chains=["L0,L1,P,L2,P,L3,P", "L4,L0,P,L1,P", "L2,L0,P,L3,P,L1,P"],                      # failing include, D41
+    revisions=["L4,L5,L6,P,L0,P,L1,P,L2,P", "L3,L4,P,L0,P", "L1,L4,P,L3,P,L2,P"],
+)
+
+
+def corpus_cases():
+    cases = []
+    for fam in sorted(CORPUS):
+        goods = FAMILIES[fam]()
+        texts = make_pool(goods, None)
+        bad_ix = [i for i, t in enumerate(texts) if i >= len(goods)]
+        for k, script in enumerate(CORPUS[fam]):
+            ops = script.split(",")
+            cases.append(Case([fam, "corpus"], texts, ops, "-fq"[k % 3]))
+            # the same with failing loads (and the D43 shapes) interleaved, 10 ops at most
+            mixed, j, room = [], k, 10 - len(ops)
+            for op in ops:
+                if room > 0 and op != "P":
+                    mixed.append("L%d" % bad_ix[j % len(bad_ix)])
+                    j, room = j + 1, room - 1
+                mixed.append(op)
+            cases.append(Case([fam, "corpus+bad"], texts, mixed, "-"))
+        # D43 shapes alone and followed by the module itself
+        names = {t["name"]: i for i, t in enumerate(texts)}
+        for nm in ("part.yang", "twice.yang", "bg.yang", "gg.yang"):
+            if nm in names:
+                cases.append(Case([fam, "corpus-d43"], texts, ["L%d" % names[nm], "P", "L0", "P", "L%d" % names[nm], "P"], "-"))
+    return cases
+
+
 # ------------------------------------------------------------------------------------------------ running
 def process_line(texts, ops, opts="-"):
     toks = ["process", opts, ",".join(ops), str(len(texts))]
@@ -248,7 +303,9 @@ def process_line(texts, ops, opts="-"):
 
 
 def run_go(lines):
-    tmp = tempfile.mkdtemp(prefix="c18cwd")
+    if not lines:
+        return []
+    tmp = tempfile.mkdtemp(prefix="c18cwd")       # FindModule looks for name.yang in the current directory
     try:
         return lib.run_go(lines, cwd=tmp)
     finally:
@@ -262,39 +319,15 @@ def parse(line):
 
 
 def split_history(ops, loads):
-    """per P of the history: indices (into texts) of the loads accepted before it, in load order; and of the failed ones"""
-    out, acc, failed, li = [], [], [], 0
+    """per P of the history: indices (into texts) of the loads accepted before it, in load order"""
+    out, acc, li = [], [], 0
     for op in ops:
         if op == "P":
-            out.append((list(acc), list(failed)))
+            out.append(list(acc))
         else:
-            i = int(op[1:])
-            (acc if loads[li] == "ok" else failed).append(i)
+            if loads[li] == "ok":
+                acc.append(int(op[1:]))
             li += 1
-    return out
-
-
-def item_key(it):
-    return (it["kind"], it["mod"], max(it["revs"], default=""))
-
-
-def simulate(texts, ops):
-    """which leading items of every load Modules.Parse adds, by the rule of Parse/add: stop at the first bad item or at
-    the first (kind, name, latest revision) that is already loaded.  Returns per load (text index, items added, whole
-    text accepted).  Only used to name the accepted prefix of a partially failed text and as a sanity check."""
-    loaded, out = set(), []
-    for op in ops:
-        if op == "P":
-            continue
-        t = texts[int(op[1:])]
-        n = 0
-        if not t["syntax"]:
-            for it in t["items"]:
-                if not it["good"] or item_key(it) in loaded:
-                    break
-                loaded.add(item_key(it))
-                n += 1
-        out.append((int(op[1:]), n, (not t["syntax"]) and n == len(t["items"])))
     return out
 
 
@@ -325,122 +358,267 @@ def first_diff(a, b, path=""):
 
 
 class Case:
-    def __init__(self, fams, texts, ops, opts="-"):
+    def __init__(self, fams, texts, ops, opts="-", hops=None):
         self.fams, self.texts, self.ops, self.opts = fams, texts, ops, opts
+        self.hops = hops if hops is not None else list(ops)       # the history with namespace lookups (c18hist only)
 
     def replay(self):
-        return dict(kind="metamorphic", families=self.fams, ops=self.ops, opts=self.opts,
-                    texts=[dict(name=t["name"], src=t["src"], syntax=t["syntax"],
-                                items=[dict(good=i["good"], src=i["src"]) for i in t["items"]]) for t in self.texts])
+        return dict(families=self.fams, ops=self.ops, hops=self.hops, opts=self.opts, texts=self.texts)
+
+    @staticmethod
+    def of_replay(rep):
+        return Case(rep["families"], rep["texts"], rep["ops"], rep["opts"], rep.get("hops"))
 
 
-def partial_variant(texts, ops, upto_p, opts):
-    """the batch that also loads, at its place in the load order, the accepted prefix of every partially failed text
-    among the loads before the upto_p-th P (None when there is no such text)"""
-    sub, seen, li, p = [], False, 0, 0
-    sim = simulate(texts, ops)
-    for op in ops:
-        if op == "P":
-            if p == upto_p:
-                break
-            p += 1
-            continue
-        i, n, whole = sim[li]
-        li += 1
-        if whole:
-            sub.append(texts[i])
-        elif n > 0:
-            sub.append(text_of(texts[i]["name"], texts[i]["items"][:n]))
-            seen = True
-    if not seen:
-        return None
-    return process_line(sub, ["L%d" % k for k in range(len(sub))] + ["P"], opts)
-
-
-def load_order(ops, loads, upto_p):
-    """[(ok|err, text index)] of the loads before the upto_p-th P"""
-    out, li, p = [], 0, 0
-    for op in ops:
-        if op == "P":
-            if p == upto_p:
-                break
-            p += 1
-        else:
-            out.append(("ok" if loads[li] == "ok" else "err", int(op[1:])))
-            li += 1
-    return out
-
-
-def metamorphic(res, cases, stats, max_report=4):
-    """runs the histories and their batches; reports differences"""
+def metamorphic(res, cases, stats, max_report=3):
+    """runs the histories and, for every P, the batch on the texts accepted so far; reports stable differences"""
     hist_lines = [process_line(c.texts, c.ops, c.opts) for c in cases]
     hist_out = run_go(hist_lines)
-    batch_lines, want = {}, []
+    batch_lines = {}
     parsed = []
     for c, o in zip(cases, hist_out):
         j = parse(o)
         parsed.append(j)
         if j is None:
             continue
-        for acc, failed in split_history(c.ops, j["loads"]):
-            bl = batch_for(c.texts, acc, c.opts)
-            batch_lines.setdefault(bl, None)
+        for acc in split_history(c.ops, j["loads"]):
+            batch_lines.setdefault(batch_for(c.texts, acc, c.opts), None)
     keys = list(batch_lines)
-    outs = run_go(keys)
-    for k, o in zip(keys, outs):
+    for k, o in zip(keys, run_go(keys)):
         batch_lines[k] = o
+    stats["batch_runs"] += len(keys)
+    second = []      # (case, history line, p index, history run, batch line, batch) that differ
     reported = 0
-    second = []      # (case, p index, history run, batch line) that differ: candidates for the known shape
-    for c, o, j in zip(cases, hist_out, parsed):
+    for c, hl, o, j in zip(cases, hist_lines, hist_out, parsed):
+        stats["histories"] += 1
         if j is None:
             stats["crashed"] += 1
-            res.violation("history did not complete: ops=%s -> %s" % (",".join(c.ops), o[:300]),
-                          dict(c.replay(), history=o[:2000]))
+            if reported < max_report:
+                reported += 1
+                res.violation("history did not complete: ops=%s -> %s" % (",".join(c.ops), o[:300]),
+                              dict(c.replay(), kind="metamorphic", history_line=hl, history=o[:2000]))
             continue
-        nl = sum(1 for op in c.ops if op != "P")
-        stats["loads_ok"] += sum(1 for l in j["loads"] if l == "ok")
-        stats["loads_failed"] += sum(1 for l in j["loads"] if l != "ok")
-        for p, (acc, failed) in enumerate(split_history(c.ops, j["loads"])):
+        nfail = sum(1 for l in j["loads"] if l != "ok")
+        stats["loads_ok"] += len(j["loads"]) - nfail
+        stats["loads_failed"] += nfail
+        accs = split_history(c.ops, j["loads"])
+        if nfail and len(accs) >= 2:
+            stats["nontrivial"] += 1
+        for p, acc in enumerate(accs):
             stats["process_runs"] += 1
             run = j["runs"][p]
             stats["runs_with_errors" if run["errors"] else "runs_clean"] += 1
             bl = batch_for(c.texts, acc, c.opts)
             b = parse(batch_lines[bl])
-            if b is None or any(l != "ok" for l in b["loads"]):
-                # a text accepted in the history is not accepted by the fresh set
-                second.append((c, p, run, bl, b, True))
-                continue
-            if b["runs"][0] != run:
-                second.append((c, p, run, bl, b, False))
-    # classification of the differing ones
-    pv_lines = {}
-    for c, p, run, bl, b, loaddiff in second:
-        j = parsed[cases.index(c)]
-        pv = partial_variant(c.texts, c.ops, p, c.opts)
-        if pv:
-            pv_lines[pv] = None
-    keys = list(pv_lines)
-    for k, o in zip(keys, run_go(keys)):
-        pv_lines[k] = o
-    for c, p, run, bl, b, loaddiff in second:
-        j = parsed[cases.index(c)]
-        pv = partial_variant(c.texts, c.ops, p, c.opts)
-        if pv:
-            v = parse(pv_lines[pv])
-            if v is not None and all(l == "ok" for l in v["loads"]) and v["runs"][0] == run:
-                stats["known_partial_text"] += 1
-                res.known(KNOWN_SIG, "ops=%s texts=%s" % (",".join(c.ops), [t["name"] for t in c.texts]))
-                continue
+            if b is None or any(l != "ok" for l in b["loads"]) or b["runs"][0] != run:
+                second.append((c, hl, p, run, bl, b))
+    # Go map order: a few answers of the library still depend on it (C05's subject).  A difference counts only when
+    # it is stable: history and batch are run again and must never produce a common dump.
+    FL = 4
+    rer = []
+    for c, hl, p, run, bl, b in second:
+        rer += [hl] * FL + [bl] * FL
+    rout = run_go(rer)
+    for k, (c, hl, p, run, bl, b) in enumerate(second):
+        hs = [parse(o) for o in rout[2 * FL * k: 2 * FL * k + FL]]
+        bs = [parse(o) for o in rout[2 * FL * k + FL: 2 * FL * (k + 1)]]
+        hd = [json.dumps(run, sort_keys=True)] + [json.dumps(h["runs"][p], sort_keys=True) for h in hs if h]
+        bd = [json.dumps(x["runs"][0], sort_keys=True) for x in bs + [b]
+              if x and x.get("runs") and all(l == "ok" for l in x["loads"])]
+        if set(hd) & set(bd):
+            stats["map_order_dependent"] += 1
+            continue
         stats["differences"] += 1
         if reported < max_report:
             reported += 1
+            j = parse(hist_out[cases.index(c)])
+            loaddiff = b is None or any(l != "ok" for l in b["loads"])
             what = ("a text accepted by the history is rejected by a fresh set" if loaddiff else
                     "Process #%d of the history differs from a fresh batch run on the accepted texts: %s" % (
                         p + 1, first_diff(run, b["runs"][0])))
             res.violation("%s; families=%s ops=%s loads=%s" % (what, c.fams, ",".join(c.ops), j["loads"]),
-                          dict(c.replay(), p_index=p, history_line=process_line(c.texts, c.ops, c.opts), batch_line=bl,
+                          dict(c.replay(), kind="metamorphic", p_index=p, history_line=hl, batch_line=bl,
                                history_dump=run, batch_dump=(b["runs"][0] if b and b.get("runs") else b), diff=what))
     return parsed
+
+
+# ------------------------------------------------------------------------------------------------ correspondence
+import re
+
+IDENT_RE = re.compile(r"(?m)^\s*identity\s+([A-Za-z0-9_.-]+)")
+
+
+def item_lines(text):
+    """first line of every item of a text (items are joined by one newline)"""
+    out, line = [], 1
+    for it in text["items"]:
+        out.append(line)
+        line += (it["src"] + "\n").count("\n")
+    return out
+
+
+def abstract(texts):
+    """tokens of the texts for the extracted machine, and (file name, line) -> item identifier"""
+    toks, where = [str(len(texts))], {}
+    for ti, t in enumerate(texts):
+        if t["syntax"]:
+            toks.append("S")
+            continue
+        toks += ["I", str(len(t["items"]))]
+        lines = item_lines(t)
+        for k, it in enumerate(t["items"]):
+            iid = ti * 100 + k + 1
+            where[(t["name"], lines[k])] = iid
+            if not it["good"]:
+                toks += ["B", str(len(it["tds"]))]
+                continue
+            refs = lambda l: ",".join("%s:%s" % (hx(n), hx(r) if r else "~") for n, r in l) if l else "-"
+            ids = IDENT_RE.findall(it["src"])
+            toks += ["G", str(iid), it["kind"], hx(it["mod"]), ",".join(hx(r) for r in it["revs"]) if it["revs"] else "-",
+                     hx(it["ns"]), hx(it["belongs"]) if it["belongs"] else "~", str(len(it["tds"])),
+                     refs(it["imports"]), refs(it["includes"]), ",".join(hx(i) for i in ids) if ids else "-"]
+    return toks, where
+
+
+def model_line(texts, ops, fx="now"):
+    toks, where = abstract(texts)
+    return " ".join(["c18hist", fx] + toks + [str(len(ops))] + ops), where
+
+
+def gohist_line(texts, ops):
+    toks = ["c18hist", ",".join(ops), str(len(texts))]
+    for t in texts:
+        toks += [hx(t["name"]), hx(t["src"])]
+    return " ".join(toks)
+
+
+def canon_gohist(line, where):
+    """the implementation's line with source positions replaced by item identifiers"""
+    def ident(h):
+        src = bytes.fromhex(h).decode()
+        f, ln, _ = src.rsplit(":", 2)
+        return str(where.get((f, int(ln)), "?" + src))
+
+    def smap(v):
+        if v == "-":
+            return "-"
+        return ",".join(sorted("%s:%s" % (kv.split(":")[0], ident(kv.split(":")[1])) for kv in v.split(",")))
+
+    out = []
+    for part in line.split(" ; "):
+        f = part.split(" ")
+        if f[0].startswith("L"):
+            out.append("%s M=%s S=%s" % (f[0], smap(f[1][2:]), smap(f[2][2:])))
+        elif f[0] == "P":
+            b = f[2][2:]
+            if b != "-":
+                bs = []
+                for x in b.split(","):
+                    m = re.match(r"^([0-9a-f]+)\.([ic])\.(\d+)>([0-9a-f]+)$", x)
+                    bs.append("%s.%s.%s>%s" % (ident(m.group(1)), m.group(2), m.group(3), ident(m.group(4))))
+                b = ",".join(sorted(bs))
+            out.append("P B=%s" % b)
+        elif f[0].startswith("N=f"):
+            out.append("N=f" + ident(f[0][3:]))
+        else:
+            out.append(f[0])
+    return out
+
+
+def ids_of(lpart):
+    """item identifiers filed in ms.Modules / ms.SubModules according to an L part"""
+    ids = set()
+    for f in lpart.split(" ")[1:]:
+        v = f[2:]
+        if v != "-":
+            ids |= {kv.split(":")[1] for kv in v.split(",")}
+    return ids
+
+
+def filed(acc, items):
+    """the accepted items that have a key in ms.Modules / ms.SubModules: all of them, except that a module without
+    revision statement loses its only key, the bare name, to an accepted namesake that has a revision (C13)"""
+    out = set()
+    for i in acc:
+        it = items[i]
+        if it["revs"] or not any(items[j]["revs"] and items[j]["kind"] == it["kind"] and items[j]["mod"] == it["mod"]
+                                 for j in acc):
+            out.add(i)
+    return out
+
+
+def correspondence(res, cases, stats, max_report=3):
+    """model (extracted machine run with History.now) against implementation, and the implementation against the
+    specification: verdict of every load, accepted items after every load, bindings after Process, namespace answers"""
+    mls, gls, wheres = [], [], []
+    for c in cases:
+        ml, where = model_line(c.texts, c.hops)
+        mls.append(ml)
+        wheres.append(where)
+        gls.append(gohist_line(c.texts, c.hops))
+    go = run_go(gls)
+    ml = lib.run_ml(mls)
+    reported = 0
+    for c, gl, mline, g, m, where in zip(cases, gls, mls, go, ml, wheres):
+        stats["corr_cases"] += 1
+        if " || " not in m or g.startswith("PANIC") or g.startswith("CRASH") or g == "NOT-RUN":
+            stats["corr_mismatch"] += 1
+            if reported < max_report:
+                reported += 1
+                res.violation("model or implementation did not complete: impl=%s model=%s" % (g[:200], m[:200]),
+                              dict(c.replay(), kind="correspondence", impl_line=gl, model_line=mline, impl=g, model=m))
+            continue
+        mparts, sparts = [x.split(" ; ") for x in m.split(" || ")]
+        gparts = canon_gohist(g, where)
+        items = {str(ti * 100 + k + 1): it for ti, t in enumerate(c.texts) for k, it in enumerate(t["items"])}
+        bad = None
+        for k, (op, gp, mp, sp) in enumerate(zip(c.hops, gparts, mparts, sparts)):
+            stats["corr_ops"] += 1
+            if op.startswith("L"):
+                if sp.endswith("part=1"):
+                    stats["corr_d43_shaped_loads"] += 1
+                if gp != mp:
+                    bad = ("tie", k, gp, mp)
+                    break
+                # oracle: verdict and accepted set as the specification says
+                acc = set(sp.split(" ")[1][2:].split(",")) - {"-"}
+                if gp[:2] != sp[:2] or ids_of(gp) != filed(acc, items):
+                    bad = ("oracle", k, gp, sp)
+                    break
+            elif op == "P":
+                stats["corr_binds_compared"] += 1
+                if gp != "P " + mp.split(" ")[2]:
+                    bad = ("tie", k, gp, mp)
+                    break
+            elif op.startswith("N"):
+                stats["corr_ns"] += 1
+                if gp != mp:
+                    bad = ("tie", k, gp, mp)
+                    break
+                if gp != sp:
+                    bad = ("oracle", k, gp, sp)
+                    break
+        if bad:
+            stats["corr_mismatch"] += 1
+            if reported < max_report:
+                reported += 1
+                kind, k, x, y = bad
+                what = ("model and implementation disagree" if kind == "tie" else
+                        "implementation differs from the specification") + " at op %d (%s) of %s: impl=%s %s=%s" % (
+                            k, c.hops[k], ",".join(c.hops), x[:300], "model" if kind == "tie" else "spec", y[:300])
+                res.violation(what, dict(c.replay(), kind="correspondence-" + kind, impl_line=gl, model_line=mline,
+                                         impl=g, model=m))
+
+
+def with_ns_ops(rnd, c):
+    """the history with namespace lookups inserted (for the c18hist commands only)"""
+    nss = sorted({it["ns"] for t in c.texts for it in t["items"] if it["good"] and it["ns"]}) + ["urn:none"]
+    out = []
+    for op in c.ops:
+        out.append(op)
+        if rnd.random() < 0.3:
+            out.append("N" + hx(rnd.choice(nss)))
+    return out
 
 
 def gen_cases(rnd, n, which=None):
@@ -448,36 +626,89 @@ def gen_cases(rnd, n, which=None):
     for _ in range(n):
         fams, texts = universe(rnd, which)
         ops = gen_ops(rnd, texts)
-        cases.append(Case(fams, texts, ops, rnd.choice(["-", "-", "q", "f"])))
+        c = Case(fams, texts, ops, rnd.choice(["-", "-", "q", "f"]))
+        c.hops = with_ns_ops(rnd, c)
+        cases.append(c)
     return cases
 
 
-class _Res:
-    """stand-in for lib.Result while exploring"""
-    def __init__(self):
-        self.v, self.k = [], {}
-
-    def violation(self, what, replay, no_input=False):
-        self.v.append((what, replay))
-
-    def known(self, sig, ex):
-        self.k.setdefault(sig, ex)
-
-
 def new_stats():
-    return dict(crashed=0, loads_ok=0, loads_failed=0, process_runs=0, runs_with_errors=0, runs_clean=0,
-                known_partial_text=0, differences=0)
+    return dict(histories=0, nontrivial=0, crashed=0, loads_ok=0, loads_failed=0, process_runs=0, batch_runs=0,
+                runs_with_errors=0, runs_clean=0, differences=0, map_order_dependent=0,
+                corr_cases=0, corr_ops=0, corr_mismatch=0, corr_d43_shaped_loads=0, corr_binds_compared=0, corr_ns=0)
 
 
-if __name__ == "__main__":
-    # exploration aid: python3 check/props/c18.py <n> [family] [seed]
-    n = int(sys.argv[1]) if len(sys.argv) > 1 else 200
-    which = sys.argv[2] if len(sys.argv) > 2 and sys.argv[2] != "-" else None
-    seed = int(sys.argv[3]) if len(sys.argv) > 3 else 0
+def run(res, tier, seed, proof):
     rnd = random.Random(seed)
-    r, st = _Res(), new_stats()
-    metamorphic(r, gen_cases(rnd, n, which), st, max_report=int(os.environ.get("MAXREP", "12")))
-    print(st)
-    print("known:", r.k)
-    for w, rep in r.v:
-        print("VIOLATION", w[:700])
+    stats = new_stats()
+    corpus = corpus_cases()
+    for c in corpus:
+        c.hops = with_ns_ops(rnd, c)
+    n = 12000 if tier == "quick" else 300000
+    cases = corpus + gen_cases(rnd, n)
+    fam_hist = {}
+    for c in cases:
+        k = "+".join(sorted(c.fams))
+        fam_hist[k] = fam_hist.get(k, 0) + 1
+    CH = 4000
+    for i in range(0, len(cases), CH):
+        chunk = cases[i:i + CH]
+        metamorphic(res, chunk, stats)
+        correspondence(res, chunk, stats)
+    sample = cases[len(corpus) + 1]
+    cov = dict(
+        evaluations=stats["process_runs"] + stats["corr_ops"],
+        distinct_nontrivial=stats["nontrivial"],
+        rule="%d scripted corpus histories (one per defect found by this check, plain / with every kind of failing text "
+             "interleaved / the D43 shapes) and %d random histories of 2..10 ops over pools of 1-2 families (typedef chains, "
+             "identities, revisions, submodules, equal namespaces, failing-include chains, random resolver schemas) plus "
+             "3-8 bad texts; every Process dump compared with a fresh batch run on the accepted texts (re-run 4x4 times "
+             "before a difference counts); every history also run through c18hist on model and implementation with "
+             "namespace lookups inserted; non-trivial = a history with a failed load and at least two Process calls"
+             % (len(corpus), n),
+        exhaustive=False, mismatches=stats["differences"] + stats["corr_mismatch"] + stats["crashed"],
+        distribution=dict(stats, families=fam_hist),
+        samples=[dict(ops=sample.ops, families=sample.fams, texts=[t["name"] for t in sample.texts]),
+                 process_line(sample.texts, sample.ops, sample.opts)[:400]],
+    )
+    assumptions = [
+        "the result of Process and of every query is a function of what coq/Model/History.v calls the view: the two "
+        "module maps, the accepted module objects, the typedef dictionary, the import/include bindings, the identity "
+        "dictionary and the resolved-type memo (the resolver proper is not modelled here, see C04-C09, C11, C12, C17); "
+        "the metamorphic comparison on the implementation does not depend on this",
+        "texts are abstracted to items by the generator that wrote them (kind, name, revisions, namespace, belongs-to, "
+        "imports, includes, identity names, number of typedefs); the model never sees the text",
+        "type memo modelled per import/include statement, not per Type node; Identity.Values is part of the identity "
+        "dictionary in the model",
+        "the file-system fallback of FindModule (Read of name.yang) is not modelled: the harness runs in an empty "
+        "directory with an empty search path",
+        "a difference between history and batch that disappears when both sides are re-run is attributed to Go map "
+        "iteration order (resolveIdentities still ranges over a map) and counted as map_order_dependent, not reported",
+        "include recursion in the model runs on fuel = number of loaded modules + 1 (exhaustion would be reported as "
+        "a failed include; not proved unreachable, never observed)",
+    ]
+    return cov, assumptions
+
+
+def replay(rep, res):
+    c = Case.of_replay(rep)
+    kind = rep.get("kind", "metamorphic")
+    if kind.startswith("correspondence"):
+        st = new_stats()
+        correspondence(res, [c], st)
+        ml, where = model_line(c.texts, c.hops)
+        print("ops  :", ",".join(c.hops))
+        print("impl :", " ; ".join(canon_gohist(run_go([gohist_line(c.texts, c.hops)])[0], where)))
+        print("model:", lib.run_ml([ml])[0])
+        return 1 if res.violations else 0
+    st = new_stats()
+    metamorphic(res, [c], st)
+    print("ops    :", ",".join(c.ops), "opts:", c.opts)
+    for i, t in enumerate(c.texts):
+        if ("L%d" % i) in c.ops:
+            print("--- text %d (%s)" % (i, t["name"]))
+            print(t["src"])
+    print("stats  :", {k: v for k, v in st.items() if v})
+    for what, r, _ in res.violations:
+        print("DIFF   :", what)
+    return 1 if res.violations else 0
